@@ -198,20 +198,25 @@ InitReader == cur = -1 /\ out = NoReply
 (* file first; tooEarly => try the next older file and remember notFound;  *)
 (* tooLate => SeekStart of the whole reader, nil; notFound => that error;  *)
 (* found in file i => current file := i -- yields only outcomes that       *)
-(* ReaderSeekOutcomes admits, provided no file is empty.  (With an empty   *)
-(* file the file level may answer any of the three classes, and only       *)
-(* tooEarly composes to a correct reader: a consequence recorded in        *)
-(* notes/C20.md.)                                                          *)
+(* ReaderSeekOutcomes admits, provided no file is empty.  With an empty   *)
+(* file the file level may answer any of the three classes, but the        *)
+(* composition is correct for every log only if it answers tooEarly        *)
+(* (QLogFileProps!EmptyAsTooEarlyComposes, !OnlyTooEarlyForEmptyCurrent):  *)
+(* that is what the repair proposed for the known finding returns.         *)
 (***************************************************************************)
-RECURSIVE Fallthrough(_, _, _)
-Fallthrough(fs, i, t) ==
+\* E: the classes a file WITHOUT lines may answer (the statement leaves all
+\* three open; see the lemmas about E in QLogFileProps).
+FileSeekOutcomesE(a, t, E) == IF Len(a) = 0 THEN {Err(e) : e \in E} ELSE FileSeekOutcomes(a, t)
+
+RECURSIVE Fallthrough(_, _, _, _)
+Fallthrough(fs, i, t, E) ==
     IF i = 0 THEN {Err("notFound")}
     ELSE UNION {
         CASE o.res = "ok"       -> {Found(Offset(fs, i) + o.cur)}
-          [] o.res = "tooEarly" -> Fallthrough(fs, i - 1, t)
+          [] o.res = "tooEarly" -> Fallthrough(fs, i - 1, t, E)
           [] o.res = "tooLate"  -> {FallbackOutcome(Flat(fs))}
           [] OTHER              -> {Err("notFound")}
-        : o \in FileSeekOutcomes(fs[i], t)}
+        : o \in FileSeekOutcomesE(fs[i], t, E)}
 
-ReaderByFallthrough(fs, t) == Fallthrough(fs, Len(fs), t)
+ReaderByFallthrough(fs, t, E) == Fallthrough(fs, Len(fs), t, E)
 =============================================================================
